@@ -58,6 +58,8 @@ inline int harness_main(int argc, char** argv)
   HarnessInfo hi = harness_info();
 #ifdef SIM_FLAVOUR_GUARD
   const std::string hname = std::string(hi.name) + ".guard";   // guard-zone allocator flavour (no sanitizers)
+#elif defined(SIM_FLAVOUR_RACE)
+  const std::string hname = std::string(hi.name) + ".race";    // happens-before race detector flavour (sim/race_rt.cpp)
 #else
   const std::string hname = hi.name;
 #endif
